@@ -911,12 +911,15 @@ pub fn gen_scen(rng: &mut Rng) -> ScenC {
             9 | 10 => TopOp::RawPacket {
                 cap: match rng.below(7) {
                     0 => 0,
-                    1 => plen.saturating_sub(1).min(65535) as u16,
-                    2 => plen.min(65535) as u16,
-                    3 => (plen + 1).min(65535) as u16,
+                    1 => plen.saturating_sub(1).min(8192) as u16,
+                    2 => plen.min(8192) as u16,
+                    3 => (plen + 1).min(8192) as u16,
                     4 => 8192,
                     5 => 512,
-                    _ => rng.below(9000) as u16,
+                    // never more than the buffer size the header declares
+                    // (`uint8_t raw_packet[DNS_MAX_PACKET_SIZE]`): a larger stated capacity is
+                    // outside the table's documented preconditions
+                    _ => rng.below(8193) as u16,
                 },
             },
             11 | 12 => TopOp::Question,
